@@ -430,8 +430,23 @@ impl SaleWorld {
             .unwrap_or(false);
         let stage_id = q(&self.app, json!({"active_stage_id": {}})).and_then(|v| v.as_u64());
         let stage_limit: Option<Option<u64>> = match stage_id {
-            Some(id) if id >= 1 => q(&self.app, json!({"stage": {"stage_id": id - 1}}))
-                .map(|v| v["stage"]["mint_count_limit"].as_u64()),
+            // each minter family parses the answer with its own whitelist crate's StageResponse
+            // (cw_serde: unknown fields are an error), so an answer that does not have exactly
+            // that shape is a failed query for that minter
+            Some(id) if id >= 1 => q(&self.app, json!({"stage": {"stage_id": id - 1}})).and_then(|v| {
+                let parses = if self.v.merkle {
+                    serde_json::from_value::<tiered_whitelist_merkletree::msg::StageResponse>(v.clone()).is_ok()
+                } else if self.v.flex {
+                    serde_json::from_value::<sg_tiered_whitelist_flex::msg::StageResponse>(v.clone()).is_ok()
+                } else {
+                    serde_json::from_value::<sg_tiered_whitelist::msg::StageResponse>(v.clone()).is_ok()
+                };
+                if parses {
+                    Some(v["stage"]["mint_count_limit"].as_u64())
+                } else {
+                    None
+                }
+            }),
             _ => None,
         };
         let flex = q(&self.app, json!({"member": {"member": sender}})).and_then(|v| v["mint_count"].as_u64());
